@@ -176,10 +176,11 @@ def run_case(args):
                     alls = ["<unevaluable>"]
         ok_syms = sorted(defs) == want
         ok_all = alls is not None and sorted(alls) == want and len(set(alls)) == len(alls)
-        if not ok_syms or not ok_all:
+        names_ok = ok_syms and ok_all
+        if not names_ok:
             res["outcome"] = "all_ne_symbols"
             res["fails"].append(("Exports", "symbols {} / __all__ {} != templated names {}".format(sorted(defs), alls, want)))
-            return res
+            # (the clauses that do not depend on the symbols' names -- import coverage -- are still judged below)
         # __future__ first
         fut = [k for k, n in enumerate(tree.body) if isinstance(n, ast.ImportFrom) and n.module == "__future__"]
         if fut and fut[0] > (1 if ast.get_docstring(tree) else 0):
@@ -189,7 +190,7 @@ def run_case(args):
         import cdd.argparse_function.parse
         import cdd.class_.parse
         parser = {"class": cdd.class_.parse.class_, "argparse": cdd.argparse_function.parse.argparse_ast}.get(o["emit"])
-        if parser is not None:
+        if parser is not None and names_ok:
             for e in entries:
                 name = TPL[o["tpl"]].format(name=ENTRY_NAMES[e])
                 node = next(n for n in tree.body if getattr(n, "name", None) == name)
@@ -224,8 +225,9 @@ def run_case(args):
             need = {u for u in used if u in set(typing.__all__) | SQL_NAMES}
             missing = sorted(need - imported - set(defs))
             if missing:
-                res["fails"].append(("Exports", "import inference is on but {} are used without being imported".format(missing)))
-        res["outcome"] = "ok" if not res["fails"] else "other"
+                res["fails"].append(("ImportsCover", "import inference is on but {} are used without being imported".format(missing)))
+        if "outcome" not in res or res["outcome"] is None:
+            res["outcome"] = "ok" if not res["fails"] else "other"
         return res
     finally:
         shutil.rmtree(d, ignore_errors=True)
